@@ -74,6 +74,7 @@ type Config struct {
 	Seed          int64
 	Deadline      time.Time
 	Trace         bool
+	ReplayInputs  []ReplayVal // non-nil: concrete re-execution of one input vector (no symbolic inputs)
 }
 
 // Result aggregates an exploration.
@@ -149,6 +150,7 @@ type pathRun struct {
 	vfsOps  int
 	mutexes map[*value]*muState
 	locals  []*localCtx
+	replayPos int
 	known   map[*Term]bool // terms assumed on the global path (syntactic pruning)
 	wgs     map[*value]*wgState
 }
